@@ -206,6 +206,14 @@ def cross(u, v):
         u[0] * v[1] - u[1] * v[0]
                 ]
 
+def _asdouble(v):
+    # NumPy does arithmetic on a reduced-precision float array (float16, float32)
+    # in that precision, which is too coarse for tests against multiples of eps
+    if isinstance(v, np.ndarray) and v.dtype.kind == 'f' and v.dtype.itemsize < 8:
+        return v.astype(np.float64)
+    return v
+
+
 def isunitvec(v, tol=10):
     """
     Test if vector has unit length
@@ -225,7 +233,7 @@ def isunitvec(v, tol=10):
 
     :seealso: unit, iszerovec, isunittwist
     """
-    return abs(np.linalg.norm(v) - 1) < tol * _eps
+    return abs(np.linalg.norm(_asdouble(v)) - 1) < tol * _eps
 
 
 def iszerovec(v, tol=10):
@@ -247,7 +255,7 @@ def iszerovec(v, tol=10):
 
     :seealso: unit, isunitvec, isunittwist
     """
-    return np.linalg.norm(v) < tol * _eps
+    return np.linalg.norm(_asdouble(v)) < tol * _eps
 
 def iszero(v, tol=10):
     """
